@@ -293,6 +293,39 @@ fn d51() -> Result<(), String> {
     expect_no_panic(run_batch(T3, "SELECT '2562047788015:0:0'::interval + '2562047788015:0:0'::interval FROM t", "a;1;1\n"))?;
     expect_no_panic(run_batch(T3, "SELECT make_timestamp(262142, 12, 31, 0, 0, 0, 0, 0) + '2562047788015:0:0'::interval FROM t", "a;1;1\n"))
 }
+/// runs `probe` in a child process under the given TZ (chrono's Local zone is per process)
+fn tz_child(zone: &str, probe: &str) -> Result<(), String> {
+    let exe = std::env::current_exe().map_err(|e| e.to_string())?;
+    let out = std::process::Command::new(exe).env("TZ", zone).arg("tzprobe").arg(probe).output().map_err(|e| e.to_string())?;
+    let text = String::from_utf8_lossy(&out.stdout).to_string();
+    if text.contains("PROBE-OK") { Ok(()) } else { Err(format!("TZ={} {} :: {}", zone, probe, text.trim())) }
+}
+pub fn tzprobe(name: &str) -> String {
+    const TS1: &str = "CREATE TABLE t(line = '(.+)', line[1] => ts TIMESTAMP);";
+    let o = match name {
+        // 2018-11-04 00:00-01:00 does not exist in America/Sao_Paulo (DST started at midnight)
+        "gap-literal" => run_batch(TS1, "SELECT ts FROM t", "2018-11-04 00:30:00\n2018-11-04 12:00:00\n"),
+        "gap-compare" => run_batch(TS1, "SELECT ts FROM t WHERE ts > '2018-11-04 00:30:00'", "2018-11-04 12:00:00\n"),
+        // 2018-02-17 23:00-24:00 happens twice (DST ended)
+        "overlap-literal" => run_batch(TS1, "SELECT ts FROM t", "2018-02-17 23:30:00\n"),
+        "trunc-day" => run_batch(TS1, "SELECT date_trunc('day', ts) FROM t", "2018-11-04 12:00:00\n"),
+        "trunc-month" => run_batch(TS1, "SELECT date_trunc('month', ts) FROM t", "2018-11-04 12:00:00\n"),
+        _ => Outcome::Error("unknown probe".to_owned()),
+    };
+    match o {
+        Outcome::Panic(m) => format!("PANIC({})", m),
+        other => format!("PROBE-OK {}", other.show()),
+    }
+}
+fn d25() -> Result<(), String> {
+    tz_child("America/Sao_Paulo", "gap-literal")?;
+    tz_child("America/Sao_Paulo", "gap-compare")?;
+    tz_child("America/Sao_Paulo", "overlap-literal")
+}
+fn d28() -> Result<(), String> {
+    tz_child("America/Sao_Paulo", "trunc-day")?;
+    tz_child("America/Sao_Paulo", "trunc-month")
+}
 fn d46() -> Result<(), String> {
     expect_parse_ok("CREATE TABLE t(line = SPLIT ';', line[1] => k TEXT);")?;
     expect_parse_ok("CREATE TABLE t(line = MATCH '(a)', line[1] => k TEXT);")
@@ -334,6 +367,8 @@ pub fn all() -> Vec<Witness> {
         w!("D22", &["C07"], "NULL-only rows are not counted by LIMIT", d22),
         w!("D23", &["C08"], "aggregate DISTINCT without HAVING keeps duplicates", d23),
         w!("D24", &["C08", "C11"], "aggregate DISTINCT+HAVING empties the table on refresh", d24),
+        w!("D25", &["C09"], "TIMESTAMP text in a DST gap / overlap of the local zone panics (unwrap of LocalResult)", d25),
+        w!("D28", &["C09"], "date_trunc to a local midnight that does not exist panics", d28),
         w!("D26", &["C09"], "abs / unary minus / pow overflow panic", d26),
         w!("D27", &["C09", "C17"], "non-finite REAL panics in JSON output", d27),
         w!("D29", &["C10"], "follow mode ends when an append ends inside a multi-byte character", d29),
